@@ -398,7 +398,7 @@ theorem gc_invisible {α : Type} (c : Cache α) (k : String) (now now' : Nat) (h
 /-- the two phases of `ClearExpired`, run without anything in between, are the atomic `clearExpired` on the listed keys -/
 theorem gc_two_phase_atomic {α : Type} (c : Cache α) (keys : List String) (now : Nat) (k : String)
     (hk : k ∈ keys ∨ c k = none) :
-    (c.deleteKeys (c.scanExpired keys now)) k = (c.clearExpired now) k := by
+    (c.deleteKeys (c.scanExpired keys now) now) k = (c.clearExpired now) k := by
   simp only [Cache.deleteKeys, Cache.scanExpired, Cache.clearExpired, List.contains_eq_mem, List.mem_filter,
     decide_eq_true_eq]
   cases hc : c k with
@@ -410,6 +410,65 @@ theorem gc_two_phase_atomic {α : Type} (c : Cache α) (keys : List String) (now
       · exact hk
       · rw [hc] at hk; cases hk
     cases hx : expired e now <;> simp [hm, hx]
+
+/-- what `Set` writes at a time `t ≥ now` is not expired w.r.t. `now` (so phase 2 keeps it) -/
+theorem set_fresh {α : Type} (d : Nat) (c : Cache α) (k : String) (v : α) (expire t now : Nat) (h : now ≤ t) :
+    ∃ exp, Cache.set d c k v expire t = (fun k' => if k' = k then some (v, exp) else c k') ∧ expired exp now = false := by
+  generalize hx : (if expire = 0 then d else expire) = x
+  refine ⟨if x > 0 then t + x else 0, by simp only [Cache.set, hx], ?_⟩
+  cases hy : expired (if x > 0 then t + x else 0) now with
+  | false => rfl
+  | true =>
+    rw [expired_iff] at hy
+    by_cases hpos : x > 0
+    · simp only [hpos, if_true] at hy; omega
+    · simp only [hpos, if_false] at hy; omega
+
+private theorem deleteKeys_write {α : Type} (c : Cache α) (ks : List String) (now : Nat) (k : String) (v : α) (e : Nat)
+    (hf : expired e now = false) :
+    Cache.deleteKeys (fun k' => if k' = k then some (v, e) else c k') ks now =
+      (fun k' => if k' = k then some (v, e) else Cache.deleteKeys c ks now k') := by
+  funext k'
+  simp only [Cache.deleteKeys]
+  by_cases hk : k' = k
+  · simp [hk, hf]
+  · simp [hk]
+
+/-- **gc_two_phase_refines** — the real, two-phase collector is atomic in effect: whatever
+    `Set`s (by `Accept`, by the event loop, on either cache; any keys, any number) happen
+    between the scan and the re-checking delete, the resulting map is exactly the one
+    obtained by collecting *first* (atomically, at the scan's `now`) and performing the
+    same writes afterwards.  Reads in between are covered by `gc_invisible`.  The only
+    premise is that what is written in between is not expired w.r.t. the scan's `now` —
+    true of every `Set` at a time `≥ now` (`set_fresh`). -/
+theorem gc_two_phase_refines {α : Type} (ks : List String) (now : Nat) (ws : List (String × α × Nat))
+    (hf : ∀ w ∈ ws, expired w.2.2 now = false) (c : Cache α) :
+    (c.writes ws).deleteKeys ks now = (c.deleteKeys ks now).writes ws := by
+  induction ws generalizing c with
+  | nil => rfl
+  | cons w ws ih =>
+    obtain ⟨k, v, e⟩ := w
+    simp only [Cache.writes]
+    rw [ih (fun w hw => hf w (List.mem_cons_of_mem _ hw))]
+    rw [deleteKeys_write c ks now k v e (hf (k, v, e) (List.mem_cons_self ..))]
+
+/-- … hence, with `ks` the keys found by the scan, every key of the map ends as after the
+    atomic `clearExpired` followed by the writes -/
+theorem gc_two_phase_refines_clearExpired {α : Type} (c : Cache α) (keys : List String) (now : Nat)
+    (ws : List (String × α × Nat)) (hf : ∀ w ∈ ws, expired w.2.2 now = false)
+    (hkeys : ∀ k, k ∈ keys ∨ c k = none) :
+    (c.writes ws).deleteKeys (c.scanExpired keys now) now = (c.clearExpired now).writes ws := by
+  rw [gc_two_phase_refines _ now ws hf]
+  congr 1
+  funext k
+  exact gc_two_phase_atomic c keys now k (hkeys k)
+
+/-- non-vacuity: the entry renewed between the phases survives, the untouched expired one is collected -/
+example :
+    let c : Cache Nat := fun k => if k = "a" then some (1, 10) else if k = "b" then some (2, 10) else none
+    let ks := c.scanExpired ["a", "b"] 11
+    let c' := (c.writes [("a", 7, 5011)]).deleteKeys ks 11
+    ks = ["a", "b"] ∧ c' "a" = some (7, 5011) ∧ c' "b" = none := by decide
 
 /-! ### the reading "seen = processed while the record existed" is the weaker one -/
 
